@@ -412,6 +412,7 @@ type pFakeExec struct {
 	ok      bool
 	pause   bool
 	closeIn bool
+	fast    bool
 	read    int
 	mu      sync.Mutex
 	stdin   io.Reader
@@ -455,7 +456,9 @@ func (f *pFakeExec) Run() error {
 			_ = c.Close()
 		}
 	}
-	time.Sleep(20 * time.Millisecond)
+	if !f.fast {
+		time.Sleep(20 * time.Millisecond)
+	}
 	h.log(pEvent{Ev: "ExecRunEnd", ID: pInt(f.idx), Outlen: pInt(h.out.Len()), Read: &got})
 	if f.ok {
 		return nil
@@ -542,7 +545,7 @@ func (h *harnessState) buildMsg(ms *pMsgSpec) tea.Msg {
 		return tea.Sequence(cs...)()
 	case "exec":
 		idx := int(atomic.AddInt64(&h.execN, 1) - 1)
-		fe := &pFakeExec{h: h, idx: idx, ok: ms.OK == nil || *ms.OK, read: ms.Read, pause: ms.Pause, closeIn: ms.CloseIn}
+		fe := &pFakeExec{h: h, idx: idx, ok: ms.OK == nil || *ms.OK, read: ms.Read, pause: ms.Pause, closeIn: ms.CloseIn, fast: ms.Fast}
 		var cb tea.ExecCallback
 		if ms.CB {
 			cb = func(err error) tea.Msg {
